@@ -2,6 +2,7 @@
 //! on the same case files the extracted Coq model is run on, printing canonical result lines.
 
 mod m_async;
+mod m_asyncw;
 mod m_cchan;
 mod m_cexec;
 mod m_cping;
@@ -24,6 +25,7 @@ fn main() {
         Some("token") => m_token::run(),
         Some("cping") => m_cping::run(),
         Some("async") => m_async::run(),
+        Some("asyncw") => m_asyncw::run(),
         Some("cexec") => m_cexec::run(),
         Some("cexec13") => m_cexec::run13(),
         Some("streams") => m_cexec::run_streams(),
